@@ -61,8 +61,8 @@ def corrupt(rng: random.Random, fb: bytes) -> tuple[str, bytes]:
     """One of the corruption classes named by C01's quantifier."""
     b = bytearray(fb)
     n = len(b)
-    mode = rng.choice(["single", "double_xor_preserving", "computed_zero", "stored_zero", "length", "truncate",
-                       "delimiter", "multi"])
+    mode = rng.choice(["single", "double_xor_preserving", "double_xor_preserving_any", "trailer_pair", "computed_zero",
+                       "stored_zero", "length", "truncate", "delimiter", "multi"])
     if mode == "single":
         i = rng.randrange(n)
         b[i] ^= rng.randrange(1, 256)
@@ -70,6 +70,19 @@ def corrupt(rng: random.Random, fb: bytes) -> tuple[str, bytes]:
         # flip the same bits at two covered positions: XOR of covered bytes unchanged
         cov = list(range(0, n - 2))
         i, j = rng.sample(cov, 2) if len(cov) >= 2 else (0, 0)
+        d = rng.randrange(1, 256)
+        b[i] ^= d
+        b[j] ^= d
+    elif mode == "double_xor_preserving_any":
+        # the same bit flips at ANY two positions (checksum and end delimiter included): XOR of the whole frame unchanged
+        i, j = rng.sample(range(n), 2)
+        d = rng.randrange(1, 256)
+        b[i] ^= d
+        b[j] ^= d
+    elif mode == "trailer_pair":
+        # one of the last two bytes together with another byte
+        i = rng.choice([n - 1, n - 2])
+        j = rng.choice([k for k in range(3, n) if k != i])
         d = rng.randrange(1, 256)
         b[i] ^= d
         b[j] ^= d
